@@ -21,6 +21,8 @@ from .sdcodec import ENTRY, SD, range_closure
 
 
 def check(run, prog, tier):
+    from . import model as _model
+    _model.audit(run, prog, 'C20')
     run.explanation = (
         "Reader->writer direction of the codec tables: for each codec the reader's binding table and the "
         "writer's layout term are compared per wire position (field, transform, inverse transform), ignored "
@@ -67,10 +69,9 @@ def check(run, prog, tier):
                "a protocol number outside the enum is kept as the raw integer" if raws else "protocol numbers outside the enum are not kept raw")
     run.floor("D1-ip-options", n, 6)
     # D3: SOME/IP byte identity = C01's writer/reader tables and split (same machinery, reported here)
-    sub = report.Run("C01", tier, run.seed, quiet=True)
-    C01.check(sub, prog, tier)
+    sub = report.subrun(C01, "C01", prog, tier, run.seed)
     for o in sub.obs:
-        if o.rule == "L5" or ":guard[" in o.construct or o.construct.endswith(":specification-values"):
+        if o.rule in ("L5", "OM") or ":guard[" in o.construct or o.construct.endswith(":specification-values"):
             continue  # the datagram loop, the rejection of malformed headers and the specification's byte values are not part of this property
         run.ob("D3", o.construct, o.ok, o.loc, o.msg, o.detail, o.nontrivial)
     run.paths += sub.paths
